@@ -152,6 +152,12 @@ class PathInfeasible(Exception):
     pass
 
 
+class OutOfBound(PathInfeasible):
+    """the path leaves the explored bound (e.g. a key symbol cast to an integer is none of the representative codes);
+    it is dropped and counted, never reported as held or violated"""
+    pass
+
+
 class Violation(Exception):
     def __init__(self, prop, what, ctx=None):
         Exception.__init__(self, prop, what, ctx)
